@@ -180,16 +180,84 @@ func (ex *Exec) ropeAlts(s StrV) ([]balt, bool) {
 	return out, true
 }
 
+// ropeIndexable: a rope whose length and i-th octet are terms (literals, octet snapshots of any
+// length, hex text of a snapshot of any length).
+func (ex *Exec) ropeIndexable(s StrV) (n *Term, at func(i *Term) *Term, ok bool) {
+	type piece struct {
+		start, n *Term
+		at       func(rel *Term) *Term
+	}
+	var ps []piece
+	pos := u64(0)
+	for _, g := range s.segs {
+		var pn *Term
+		var pat func(rel *Term) *Term
+		switch g.op {
+		case "":
+			lit := g.lit
+			if len(lit) > 64 {
+				return nil, nil, false
+			}
+			pn = u64(int64(len(lit)))
+			pat = func(rel *Term) *Term {
+				v := bvConst(uint64(lit[len(lit)-1]), 8)
+				for k := len(lit) - 2; k >= 0; k-- {
+					v = tIte(tEq(rel, u64(int64(k))), bvConst(uint64(lit[k]), 8), v)
+				}
+				return v
+			}
+			if len(lit) == 0 {
+				continue
+			}
+		case "bytes":
+			sn := g.args[0].(SliceSnap)
+			pn = sn.len
+			pat = func(rel *Term) *Term { return sn.a.sel(bvBin("bvadd", sn.off, rel)) }
+		case "hex":
+			sn := g.args[0].(SliceSnap)
+			pn = bvBin("bvshl", sn.len, u64(1))
+			pat = func(rel *Term) *Term {
+				b := sn.a.sel(bvBin("bvadd", sn.off, bvBin("bvlshr", rel, u64(1))))
+				hi := tEq(bvBin("bvand", rel, u64(1)), u64(0))
+				return hexDigit(tIte(hi, bvBin("bvlshr", b, bvConst(4, 8)), bvBin("bvand", b, bvConst(15, 8))))
+			}
+		default:
+			return nil, nil, false
+		}
+		ps = append(ps, piece{pos, pn, pat})
+		pos = bvBin("bvadd", pos, pn)
+	}
+	total := pos
+	return total, func(i *Term) *Term {
+		v := bvConst(0, 8)
+		for k := len(ps) - 1; k >= 0; k-- {
+			p := ps[k]
+			in := tAnd(bvCmp("bvuge", i, p.start), bvCmp("bvult", bvBin("bvsub", i, p.start), p.n))
+			v = tIte(in, p.at(bvBin("bvsub", i, p.start)), v)
+		}
+		return v
+	}, true
+}
+
 // strEqBytes decides equality of two ropes on their octets; ok=false when one side has
 // a piece whose octets the model does not define.
 func (ex *Exec) strEqBytes(a, b StrV) (*Term, bool) {
 	aa, ok := ex.ropeAlts(a)
-	if !ok {
-		return nil, false
+	var bb []balt
+	if ok {
+		bb, ok = ex.ropeAlts(b)
 	}
-	bb, ok := ex.ropeAlts(b)
 	if !ok {
-		return nil, false
+		// symbolic lengths: equal lengths and equal octets at a Skolem index (valid where the
+		// comparison is asserted; the same device as for octet snapshots of symbolic length)
+		na, ata, oka := ex.ropeIndexable(a)
+		nb, atb, okb := ex.ropeIndexable(b)
+		if !oka || !okb {
+			return nil, false
+		}
+		j := ex.fresh("j", 64)
+		ex.Notes["string equality over symbolic-length octets decided with a Skolem index (valid in assertions)"]++
+		return tAnd(tEq(na, nb), tImplies(bvCmp("bvult", j, na), tEq(ata(j), atb(j)))), true
 	}
 	if len(aa)*len(bb) > maxAltPairs {
 		return nil, false
